@@ -23,7 +23,7 @@ PROPS = {
             "rule": "exhaustive add/remove/dispatch sequences (canonical address order) plus seeded random histories on the real RoundRobinBackend; " + SIDE_NOTE},
     "C18": {"lean": ["C18"], "expected": ["Routes", "K18", "Globals"], "also": ["C03"], "streams": [{"name": "route", "gen": "route"}, {"name": "pipe", "gen": "pipe", "args": {"focus": "requests"}}],
             "rule": "exhaustive route tables over the pattern universe x all hosts, each lookup repeated 50 times, plus random larger tables; " + SIDE_NOTE},
-    "C19": {"lean": ["C19"], "expected": ["K19", "Globals"], "streams": [{"name": "res", "gen": "res"}],
+    "C19": {"lean": ["C19"], "expected": ["K19", "Globals"], "streams": [{"name": "res", "gen": "res"}, {"name": "pipe", "gen": "pipe", "args": {"focus": "dialogs"}}],
             "rule": "exhaustive and random resolution-outcome histories fed to addressResolved with real UDP/TCP backends; " + SIDE_NOTE},
     "C15": {"lean": ["C15"], "expected": ["K15", "Globals"], "also": ["C04"], "streams": [{"name": "pins", "gen": "pins"}, {"name": "pipe", "gen": "pipe", "args": {"focus": "dialogs"}}, {"name": "wire", "gen": "wire", "args": {"focus": "c15"}}],
             "rule": "seeded pin/lookup/terminate/wait histories on the real DialogBasedBackend under a virtual clock; " + SIDE_NOTE},
